@@ -197,7 +197,8 @@ def run(rep, tier):
     starfinders(rep, drv, r, 16 * scale)
     centroid_refine(rep, r, 10 * scale)
     exclude_border_probe(rep, r, 8 * scale)
-    separation_symmetry_probe(rep, r, 6 * scale)
+    separation_symmetry_probe(rep, r, 12 * scale)
+    separation_footprint_correspondence(rep, drv, r)
 
 
 def star_scene(r):
@@ -367,11 +368,11 @@ def separation_symmetry_probe(rep, r, n):
     for k in range(n):
         ny, nx = 41, 47
         yy, xx = np.mgrid[0:ny, 0:nx]
-        msep = r.choice([3, 4, 5])
+        msep = [3, 4.2, 4, 3.7, 5, 2.5][k % 6]                  # non-integer separations too (the neighbourhood stays a centred disk)
         img = np.zeros((ny, nx))
         pairs = []
         for (cx, cy) in [(11, 10), (34, 12), (12, 30), (35, 29)]:
-            d = msep + r.choice([0, 0, 0, 1, -1])
+            d = int(msep) + r.choice([0, 0, 0, 1, -1])
             ax = r.choice(['x', 'y'])
             a, b = r.choice([(100.0, 60.0), (60.0, 100.0)])
             p1, p2 = (cx, cy), ((cx + d, cy) if ax == 'x' else (cx, cy + d))
@@ -404,6 +405,55 @@ def separation_symmetry_probe(rep, r, n):
                     rep.violation(f'separation-not-symmetric:{name}:{vn}', f'{name}(min_separation={msep}): {len(base)} sources on the image, {len(got)} on its '
                                   f'{vn} image (mapped back): {base} vs {got}', {'finder': name, 'min_separation': msep, 'pairs': pairs, 'variant': vn})
                     break
+
+
+def separation_footprint_correspondence(rep, drv, r):
+    """(T) the neighbourhood the star finders hand to find_peaks for a given min_separation (captured by wrapping find_peaks in
+    photutils.detection.core for the duration of the call) equals the Lean model `sepOffsets` (proved symmetric and exact)"""
+    import photutils.detection.core as core
+    from photutils.detection import DAOStarFinder, IRAFStarFinder
+    rs = np.random.RandomState(7)
+    yy, xx = np.mgrid[0:31, 0:31]
+    img = 80 * np.exp(-((xx - 15) ** 2 + (yy - 14) ** 2) / (2 * 1.3 ** 2)) + rs.normal(0, 0.2, (31, 31))
+    seps = [1.0, 2.0, 3.0, 2.5, 3.7, 4.2, 1.4, 5.0, 2.9999, r.randint(10, 60) / 10]
+    lines, exps = [], []
+    orig = core.find_peaks
+    for sep in seps:
+        got = {}
+
+        def spy(data, threshold, **kw):
+            got['fp'] = None if kw.get('footprint') is None else np.array(kw['footprint'])
+            return orig(data, threshold, **kw)
+        core.find_peaks = spy
+        try:
+            with warnings.catch_warnings():
+                warnings.simplefilter('ignore')
+                DAOStarFinder(threshold=5.0, fwhm=2.8, min_separation=sep)(img)
+        finally:
+            core.find_peaks = orig
+        fp = got.get('fp')
+        if fp is None:
+            rep.tie_broken('min_separation footprint not observed', {'min_separation': sep})
+            continue
+        cy, cx = fp.shape[0] // 2, fp.shape[1] // 2        # scipy.ndimage footprint origin
+        offs = sorted((j - cy, i - cx) for j in range(fp.shape[0]) for i in range(fp.shape[1]) if fp[j, i])
+        lines.append(f'sepfoot {q(sep)}')
+        exps.append((sep, offs))
+    out = drv.run(lines)
+    if out is None:
+        rep.tie_broken('model driver failed (sepfoot)', drv.error)
+        return
+    for ln, o, (sep, offs) in zip(lines, out, exps):
+        rep.traces += 1
+        rep.case(('sepfoot', sep), True, kind='separation-footprint')
+        mo = sorted(tuple(int(v) for v in t.split(',')) for t in o.split()[1:]) if o.startswith('ok') else None
+        if mo != offs:
+            sym = all((-a, -b) in offs for a, b in offs)
+            if not sym:
+                rep.violation('separation-footprint-not-centred', f'min_separation={sep}: the neighbourhood handed to find_peaks is not symmetric about the '
+                              f'pixel (offsets {offs[:6]} ...)', {'min_separation': sep, 'offsets': offs})
+            else:
+                rep.tie_broken('separation footprint differs from the model', {'min_separation': sep, 'model': o[:200], 'impl': offs})
 
 
 def exclude_border_probe(rep, r, n):
